@@ -331,7 +331,8 @@ def r6_groups(ctx):
     for name in ("preprocess_field", "preprocess_table_with_key", "preprocess_table"):
         g = cls.method(name)
         calls = [c for c in calls_in(g.node) if callee_last(c) == "_format_groupby_input"]
-        ok = bool(calls) and all(len(c.args) > 1 and txt(c.args[1]) == "self.check.groups" for c in calls)
+        ok = bool(calls) and all((len(c.args) > 1 and txt(c.args[1]) == "self.check.groups") or
+                                 (kw(c, "groups") is not None and txt(kw(c, "groups")) == "self.check.groups") for c in calls)
         ctx.ob("R6", g, f"{name} passes self.check.groups", ok, "groups forwarded" if ok else "groups option not forwarded")
 
 
